@@ -1,7 +1,250 @@
-//! Hand-enumerated templates (filled in below): function-call shapes,
-//! recursion, literal typing contexts.
-use c00ref::*;
+//! Hand-enumerated template programs for the parts of C01 that the expression
+//! and skeleton grammars do not produce: call shapes (arity 0..7, argument
+//! permutations over distinct types), self and mutual recursion, and every
+//! context that fixes the type of an unsuffixed literal x every numeric type.
+//!
+//! Every template has the entry `fn f(a: i32, b: i32) -> i32`; the reference
+//! is a plain Rust closure written from the language definition.
 
-pub fn all() -> Vec<Program> {
-    vec![]
+pub struct Template {
+    pub name: String,
+    pub src: String,
+    /// None = the language leaves this input unspecified
+    pub expect: Box<dyn Fn(i32, i32) -> Option<i32>>,
+}
+
+fn t(name: impl Into<String>, src: impl Into<String>, expect: impl Fn(i32, i32) -> Option<i32> + 'static) -> Template {
+    Template { name: name.into(), src: src.into(), expect: Box::new(expect) }
+}
+
+const INT: [(&str, u32, bool); 8] = [
+    ("u8", 8, false),
+    ("i8", 8, true),
+    ("u16", 16, false),
+    ("i16", 16, true),
+    ("u32", 32, false),
+    ("i32", 32, true),
+    ("u64", 64, false),
+    ("i64", 64, true),
+];
+
+pub fn all() -> Vec<Template> {
+    let mut v = vec![];
+
+    // ---- arity 0..7, distinct weights per position (an argument-order or
+    // register-assignment slip changes the result)
+    let w = [3i32, 5, 7, 11, 13, 17, 19];
+    for n in 0..=7usize {
+        let params: Vec<String> = (0..n).map(|i| format!("x{i}: i32")).collect();
+        let body: String = if n == 0 {
+            "42".into()
+        } else {
+            (0..n).map(|i| format!("x{i} * {}", w[i])).collect::<Vec<_>>().join(" + ")
+        };
+        // arguments: a, b, 1, 2, a, b, 3 (prefix of length n)
+        let args_src = ["a", "b", "1", "2", "a", "b", "3"];
+        let args: Vec<&str> = args_src[..n].to_vec();
+        let src = format!(
+            "fn k({}) -> i32 {{ {body} }}\nfn f(a: i32, b: i32) -> i32 {{ k({}) }}\n",
+            params.join(", "),
+            args.join(", ")
+        );
+        v.push(t(format!("arity-{n}"), src, move |a, b| {
+            let vals = [a, b, 1, 2, a, b, 3];
+            if n == 0 {
+                return Some(42);
+            }
+            let mut r = 0i32;
+            for i in 0..n {
+                r = r.wrapping_add(vals[i].wrapping_mul(w[i]));
+            }
+            Some(r)
+        }));
+    }
+
+    // ---- all 6 orders of three distinctly typed parameters (u8, i64, bool)
+    let perms: [[usize; 3]; 6] = [[0, 1, 2], [0, 2, 1], [1, 0, 2], [1, 2, 0], [2, 0, 1], [2, 1, 0]];
+    let decl = ["x: u8", "y: i64", "z: bool"];
+    let argv = ["200u8", "5000000000", "a < b"];
+    for p in perms {
+        let params: Vec<&str> = p.iter().map(|i| decl[*i]).collect();
+        let args: Vec<&str> = p.iter().map(|i| argv[*i]).collect();
+        let src = format!(
+            "fn p({}) -> i64 {{ if z {{ y + 1 }} else if x == 200 {{ y - 1 }} else {{ 0 }} }}\n\
+             fn f(a: i32, b: i32) -> i32 {{ let r = p({}); if r == 5000000001 {{ 1 }} else if r == 4999999999 {{ 2 }} else {{ 3 }} }}\n",
+            params.join(", "),
+            args.join(", ")
+        );
+        v.push(t(format!("perm-{p:?}"), src, |a, b| Some(if a < b { 1 } else { 2 })));
+    }
+    // ---- mixed widths in one call: every int type as one of 7 parameters
+    {
+        let src = "fn m(a1: u8, a2: i16, a3: u32, a4: i64, a5: i8, a6: u16, a7: u64) -> bool {\n\
+                   a1 == 255 && a2 == 0 - 32768 && a3 == 4000000000 && a4 == 0 - 5 && a5 == 0 - 128 && a6 == 65535 && a7 == 9000000000000000000\n}\n\
+                   fn f(a: i32, b: i32) -> i32 { if m(255, 0 - 32768, 4000000000, 0 - 5, 0 - 128, 65535, 9000000000000000000) { a } else { b } }\n";
+        v.push(t("mixed-widths-7", src, |a, _| Some(a)));
+    }
+
+    // ---- self recursion
+    v.push(t(
+        "fact",
+        "fn fact(n: i32) -> i32 { if n <= 1 { 1 } else { n * fact(n - 1) } }\nfn f(a: i32, b: i32) -> i32 { fact(b % 8) + a }\n",
+        |a, b| {
+            fn fact(n: i32) -> i32 {
+                if n <= 1 { 1 } else { n.wrapping_mul(fact(n - 1)) }
+            }
+            Some(fact(b.wrapping_rem(8)).wrapping_add(a))
+        },
+    ));
+    v.push(t(
+        "fib",
+        "fn fib(n: i32) -> i32 { if n < 2 { n } else { fib(n - 1) + fib(n - 2) } }\nfn f(a: i32, b: i32) -> i32 { fib(b % 10) - a }\n",
+        |a, b| {
+            fn fib(n: i32) -> i32 {
+                if n < 2 { n } else { fib(n - 1).wrapping_add(fib(n - 2)) }
+            }
+            Some(fib(b.wrapping_rem(10)).wrapping_sub(a))
+        },
+    ));
+    v.push(t(
+        "sum-acc",
+        "fn go(n: i32, acc: i32) -> i32 { if n <= 0 { return acc; } go(n - 1, acc * 31 + n) }\nfn f(a: i32, b: i32) -> i32 { go(b % 5, a) }\n",
+        |a, b| {
+            fn go(n: i32, acc: i32) -> i32 {
+                if n <= 0 { acc } else { go(n - 1, acc.wrapping_mul(31).wrapping_add(n)) }
+            }
+            Some(go(b.wrapping_rem(5), a))
+        },
+    ));
+    // ---- mutual recursion of 2 and 3 functions
+    v.push(t(
+        "even-odd",
+        "fn even(n: i32) -> bool { if n == 0 { true } else { odd(n - 1) } }\nfn odd(n: i32) -> bool { if n == 0 { false } else { even(n - 1) } }\n\
+         fn f(a: i32, b: i32) -> i32 { let n = b % 7; if n < 0 { return a; } if even(n) { 1 } else { 0 } }\n",
+        |a, b| {
+            let n = b.wrapping_rem(7);
+            if n < 0 { Some(a) } else { Some(if n % 2 == 0 { 1 } else { 0 }) }
+        },
+    ));
+    v.push(t(
+        "three-cycle",
+        "fn r0(n: i32, x: i32) -> i32 { if n <= 0 { x } else { r1(n - 1, x * 2 + 1) } }\n\
+         fn r1(n: i32, x: i32) -> i32 { if n <= 0 { x + 100 } else { r2(n - 1, x * 3 + 2) } }\n\
+         fn r2(n: i32, x: i32) -> i32 { if n <= 0 { x + 200 } else { r0(n - 1, x * 5 + 3) } }\n\
+         fn f(a: i32, b: i32) -> i32 { r0(b % 7, a) }\n",
+        |a, b| {
+            fn r(k: u8, n: i32, x: i32) -> i32 {
+                match k {
+                    0 => {
+                        if n <= 0 { x } else { r(1, n - 1, x.wrapping_mul(2).wrapping_add(1)) }
+                    }
+                    1 => {
+                        if n <= 0 { x.wrapping_add(100) } else { r(2, n - 1, x.wrapping_mul(3).wrapping_add(2)) }
+                    }
+                    _ => {
+                        if n <= 0 { x.wrapping_add(200) } else { r(0, n - 1, x.wrapping_mul(5).wrapping_add(3)) }
+                    }
+                }
+            }
+            Some(r(0, b.wrapping_rem(7), a))
+        },
+    ));
+    v.push(t(
+        "ackermann-bounded",
+        "fn ack(m: i32, n: i32) -> i32 { if m == 0 { n + 1 } else if n == 0 { ack(m - 1, 1) } else { ack(m - 1, ack(m, n - 1)) } }\n\
+         fn f(a: i32, b: i32) -> i32 { let m = a % 3; let n = b % 3; if m < 0 || n < 0 { return 0 - 1; } ack(m, n) }\n",
+        |a, b| {
+            fn ack(m: i32, n: i32) -> i32 {
+                if m == 0 { n + 1 } else if n == 0 { ack(m - 1, 1) } else { ack(m - 1, ack(m, n - 1)) }
+            }
+            let (m, n) = (a.wrapping_rem(3), b.wrapping_rem(3));
+            if m < 0 || n < 0 { Some(-1) } else { Some(ack(m, n)) }
+        },
+    ));
+    // ---- functions declared after use, nested calls as arguments
+    v.push(t(
+        "declared-later-nested-args",
+        "fn f(a: i32, b: i32) -> i32 { sub(sub(a, b), sub(b, a)) }\nfn sub(x: i32, y: i32) -> i32 { x - y }\n",
+        |a, b| Some(a.wrapping_sub(b).wrapping_sub(b.wrapping_sub(a))),
+    ));
+
+    // ---- literal typing: every context x every integer type. The literal
+    // MAX of the type plus one wraps to MIN exactly when the literal (and the
+    // arithmetic) got the context's type.
+    for (ty, bits, signed) in INT {
+        let max: i128 = if signed { (1i128 << (bits - 1)) - 1 } else { (1i128 << bits) - 1 };
+        // literals must fit in i64
+        let max = if bits == 64 && !signed { i64::MAX as i128 } else { max };
+        let wraps_to = if bits == 64 && !signed {
+            // u64: i64::MAX + 1 does not wrap; compare with the exact successor instead
+            format!("x + 1 == 9223372036854775807 + 1 && x + 1 > x")
+        } else if signed {
+            "x + 1 < x".to_string()
+        } else {
+            "x + 1 == 0".to_string()
+        };
+        let ctxs: Vec<(&str, String)> = vec![
+            ("let-annotation", format!("fn f(a: i32, b: i32) -> i32 {{ let x: {ty} = {max}; if {wraps_to} {{ a }} else {{ b }} }}\n")),
+            (
+                "parameter",
+                format!("fn id(x: {ty}) -> bool {{ {wraps_to} }}\nfn f(a: i32, b: i32) -> i32 {{ if id({max}) {{ a }} else {{ b }} }}\n"),
+            ),
+            (
+                "return",
+                format!("fn mk() -> {ty} {{ {max} }}\nfn f(a: i32, b: i32) -> i32 {{ let x = mk(); if {wraps_to} {{ a }} else {{ b }} }}\n"),
+            ),
+            (
+                "operand-partner",
+                format!("fn one() -> {ty} {{ 1 }}\nfn f(a: i32, b: i32) -> i32 {{ let x = ({max} - 1) + one(); if {wraps_to} {{ a }} else {{ b }} }}\n"),
+            ),
+            (
+                "record-field",
+                format!("record R {{ v: {ty} }}\nfn f(a: i32, b: i32) -> i32 {{ let r = R {{ v: {max} }}; let x = r.v; if {wraps_to} {{ a }} else {{ b }} }}\n"),
+            ),
+            (
+                "list-element",
+                format!("fn f(a: i32, b: i32) -> i32 {{ let l: List[{ty}] = [{max}]; match l.get(0) {{ Some(x) => {{ if {wraps_to} {{ a }} else {{ b }} }}, None => {{ 0 }} }} }}\n"),
+            ),
+            (
+                "suffix",
+                format!("fn f(a: i32, b: i32) -> i32 {{ let x = {max}{ty}; if {wraps_to} {{ a }} else {{ b }} }}\n"),
+            ),
+            (
+                "compound-assign",
+                format!("fn f(a: i32, b: i32) -> i32 {{ let x: {ty} = 0; x += {max}; if {wraps_to} {{ a }} else {{ b }} }}\n"),
+            ),
+        ];
+        for (cname, src) in ctxs {
+            v.push(t(format!("literal-{cname}/{ty}"), src, |a, _| Some(a)));
+        }
+    }
+    // ---- unconstrained defaults: integer literals are i32, float literals f64
+    v.push(t(
+        "literal-default-i32",
+        "fn f(a: i32, b: i32) -> i32 { let x = 2147483647; if x + 1 < x { a } else { b } }\n",
+        |a, _| Some(a),
+    ));
+    v.push(t(
+        "literal-default-f64",
+        // 16777217 is not representable in f32: equal to 16777216 there, different in f64
+        "fn f(a: i32, b: i32) -> i32 { let y = 16777217.0; if y == 16777216.0 { b } else { a } }\n",
+        |a, _| Some(a),
+    ));
+    for (fty, same) in [("f32", true), ("f64", false)] {
+        let src = format!(
+            "fn f(a: i32, b: i32) -> i32 {{ let y: {fty} = 16777217.0; if y == 16777216.0 {{ b }} else {{ a }} }}\n"
+        );
+        v.push(t(format!("literal-let-annotation/{fty}"), src, move |a, b| Some(if same { b } else { a })));
+        let src = format!(
+            "fn f(a: i32, b: i32) -> i32 {{ let y = 16777217.0{fty}; if y == 16777216.0 {{ b }} else {{ a }} }}\n"
+        );
+        v.push(t(format!("literal-suffix/{fty}"), src, move |a, b| Some(if same { b } else { a })));
+    }
+    // ---- char and bool round trips through control flow
+    v.push(t(
+        "char-compare",
+        "fn pick(c: bool) -> char { if c { 'é' } else { '\\u{10FFFF}' } }\nfn f(a: i32, b: i32) -> i32 { if pick(a < b) == 'é' { 1 } else if pick(a < b) == '\\u{10FFFF}' { 2 } else { 3 } }\n",
+        |a, b| Some(if a < b { 1 } else { 2 }),
+    ));
+    v
 }
